@@ -6,10 +6,10 @@ cd /verif/harness
 python3 -c "
 import json,sys
 v=json.load(open('$R')); json.dump(v.get('case',v), open('/verif/harness/target/out/insp-pair.json','w'))"
-A=$(nm target/vrel/ct_target | grep ' ct_anchor$' | cut -d' ' -f1)
-target/vrel/ct_reader --target target/vrel/ct_target --out target/out/insp-out.json --anchor-vaddr $A -- pair target/out/insp-pair.json
+A=$(nm target/${PROFILE:-vrel}/ct_target | grep ' ct_anchor$' | cut -d' ' -f1)
+target/${PROFILE:-vrel}/ct_reader --target target/${PROFILE:-vrel}/ct_target --out target/out/insp-out.json --anchor-vaddr $A -- pair target/out/insp-pair.json
 python3 - <<'P'
-import json,subprocess
+import json,subprocess,os
 d=json.load(open('/verif/harness/target/out/insp-out.json'))
 for r in d['regions']:
     print({k:(v if k not in('cf_insns','addr_insns') else v[:12]) for k,v in r.items()})
@@ -17,6 +17,6 @@ for r in d['regions']:
     if fd:
         for key in ('insn','base_insn'):
             a=int(fd[key],16)
-            out=subprocess.run(['objdump','-d','--no-show-raw-insn','-C','--start-address=%#x'%(a-40),'--stop-address=%#x'%(a+24),'/verif/harness/target/vrel/ct_target'],stdout=subprocess.PIPE,text=True).stdout
+            out=subprocess.run(['objdump','-d','--no-show-raw-insn','-C','--start-address=%#x'%(a-40),'--stop-address=%#x'%(a+24),'/verif/harness/target/'+os.environ.get('PROFILE','vrel')+'/ct_target'],stdout=subprocess.PIPE,text=True).stdout
             print(key, fd[key]); print('\n'.join(out.splitlines()[6:]))
 P
